@@ -19,9 +19,17 @@ import (
 
 var oddStrings = []string{"", " ", "x", "quo\"te", "uni-λ-✓", "two\nlines", "'; DROP TABLE plans; --", "tab\there", "null"}
 
+// text that looks like a number (or another literal) to a column with numeric affinity or to a lenient
+// decoder: it must come back byte for byte
+var numericLooking = []string{"007", "2024.10", "1e3", "+15", " 15 ", "15 ", "12345678901234567890", "0x10", "1_000", "-0", ".5", "5.",
+	"1e400", "NaN", "Infinity", "-Infinity", "true", "false", "null", "0", "00", "1.0", "1.50", "-1.0e-2", "\t7", "7\n", "1,5", "٣"}
+
 func randString(r *core.Rand, kind string, n *int) string {
-	if r.Chance(0.25) {
+	switch c := r.Intn(100); {
+	case c < 20:
 		return oddStrings[r.Intn(len(oddStrings))]
+	case c < 45:
+		return numericLooking[r.Intn(len(numericLooking))]
 	}
 	*n++
 	return fmt.Sprintf("%s-%d", kind, *n)
